@@ -60,6 +60,12 @@ Sherman-Morrison statement) from the source text of the tree under test into `le
 the translator rejects the source or those proofs stop checking, that is a gate problem naming the broken
 equality; the histories below (sigma_inv against the exact inverse after every op, the float64 oracle, the
 lambda probe) then supply the failing input.
+`py2lean_banditwire.py` translates the WIRING (which statements of __init__ / init_params / get_action / learn, of
+EvolvableAlgorithm.mutation_hook / clone / load_checkpoint / load and of Mutations.mutation + the five mutation methods
+touch actor / exp_layer / numel / sigma_inv / the hook registry, in source order) into `lean/Gen/BanditWireGen.lean`;
+`Proofs/BanditWireGenEq.lean` proves the lists run to the model's ops (`Bandit.Wire`), `C19_source_translation_wiring_*`
+restate the size clause and the inverse invariant over histories of the generated transitions.  The histories below
+check sizes and the liveness of `exp_layer` after every op on the real agents.
 """
 from __future__ import annotations
 
@@ -963,8 +969,21 @@ def pre_gate(chk: Check) -> None:
     definitions (Props/C19.lean)."""
     import common
     import py2lean_bandit
+    import py2lean_banditwire
+    # both generated files are imported by Props/C19.lean: bring the second one up to date with the tree under test
+    # before the first gate builds that module (its own gate below reports a rejected source)
+    try:
+        py2lean_banditwire.write_if_changed(py2lean_banditwire.translate(common.REPO)[0],
+                                            common.LEAN_DIR / "Gen" / "BanditWireGen.lean")
+    except py2lean_banditwire.Unsupported:
+        pass
     common.translation_gate(chk, py2lean_bandit, "Gen/BanditGen.lean", ["Gen.BanditGen", "Proofs.BanditGenEq", "Props.C19"],
                             "confidence-matrix expressions of NeuralUCB / NeuralTS init_params and get_action")
+    common.translation_gate(chk, py2lean_banditwire, "Gen/BanditWireGen.lean",
+                            ["Gen.BanditWireGen", "Proofs.BanditWireGenEq", "Props.C19"],
+                            "wiring of sigma_inv / numel / exp_layer: which statements of __init__, init_params, get_action, "
+                            "learn, mutation_hook, clone, load_checkpoint, load, Mutations.mutation and the five mutation "
+                            "methods touch them, in source order")
 
 
 def run(chk: Check) -> None:
